@@ -448,6 +448,37 @@ def validate_step(ctx):
     _cmp(ctx, "pgen.step", reqs, wants)
 
 
+def validate_naive(ctx):
+    from dateutil.parser import _parser as P
+    import datetime
+    rng = ctx.subrng("pgen.naive")
+    n = ctx.budget(1500, 8000)
+    p = P.parser()
+    reqs, wants = [], []
+    def opt(f, pnone=0.5):
+        return None if rng.random() < pnone else f()
+    for _ in range(n):
+        dflt = datetime.datetime(rng.choice([1, 4, 1999, 2000, 2003, 2024, 9999]), rng.randrange(1, 13), 1, rng.randrange(24),
+                                 rng.randrange(60), rng.randrange(60), rng.choice([0, 999999, rng.randrange(10 ** 6)]))
+        dim = [31, 29 if dflt.year % 4 == 0 and (dflt.year % 100 or dflt.year % 400 == 0) else 28, 31, 30, 31, 30, 31, 31, 30, 31, 30, 31][dflt.month - 1]
+        dflt = dflt.replace(day=rng.choice([1, 28, dim, dim, rng.randrange(1, dim + 1)]))
+        y = opt(lambda: rng.choice([0, 1, 4, 1900, 2000, 2003, 2023, 2024, 9999, 10000, 2 ** 31 - 1, 2 ** 31]))
+        m = opt(lambda: rng.choice([0, 1, 2, 2, 4, 6, 9, 11, 12, 13, 2 ** 31]))
+        d = opt(lambda: rng.choice([0, 1, 28, 29, 30, 31, 32]), 0.6)
+        wd = opt(lambda: rng.choice([0, 1, 2, 3, 4, 5, 6, 6, 7, 8]), 0.6)
+        hh = opt(lambda: rng.choice([0, 12, 23, 24, 2 ** 31])); mm = opt(lambda: rng.choice([0, 59, 60]), 0.7)
+        ss = opt(lambda: rng.choice([0, 59, 60, 61]), 0.7); us = opt(lambda: rng.choice([0, 999999, 1000000]), 0.8)
+        reqs.append("pgen.naive %s [%s]" % (" ".join(_oi(x) for x in (y, m, d, wd, hh, mm, ss, us)),
+                                            ",".join(str(x) for x in (dflt.year, dflt.month, dflt.day, dflt.hour, dflt.minute, dflt.second, dflt.microsecond))))
+        def run():
+            res = P.parser._result()
+            res.year, res.month, res.day, res.weekday, res.hour, res.minute, res.second, res.microsecond = y, m, d, wd, hh, mm, ss, us
+            t = p._build_naive(res, dflt)
+            return "%d %d %d %d %d %d %d" % (t.year, t.month, t.day, t.hour, t.minute, t.second, t.microsecond)
+        wants.append(_r(run, str))
+    _cmp(ctx, "pgen.naive", reqs, wants)
+
+
 def validate(ctx):
     """run every `pgen.*` validation (called from the correspondence of C14)"""
     validate_ymd(ctx)
@@ -455,3 +486,4 @@ def validate(ctx):
     validate_small(ctx)
     validate_numtok(ctx)
     validate_step(ctx)
+    validate_naive(ctx)
